@@ -168,11 +168,18 @@ Print Assumptions lut_hardswish_correct.
 Print Assumptions optimise_quantize_fold_correct.
 Print Assumptions srdhm32_is_round_half_up.
 
-(* REFUTED for NumPy scalars: with an np.int16 operand (as convert_hardswish_to_lut passes) shift_left16 wraps
-   instead of saturating; the Python-int evaluation (GenFpMath) and the reference agree on 32767 *)
-Theorem shift_left16_np_int16_refuted :
+(* NumPy scalars: with an np.int16 operand (as convert_hardswish_to_lut passes) shift_left16, as the code is now
+   (`int(a) * (1 << offset)`), equals the saturating reference; model tied to the real function by correspondence *)
+Theorem shift_left16_np_int16_eq : forall a off,
+  in_int 16 a = true -> 0 <= off <= 30 ->
+  np_shift_left16_int16 a off = Some (SaturatingLeftShift16 a off).
+Proof. exact shift_left16_np_int16_eq_lemma. Qed.
+
+(* the expression before /repo d51cb08 (product evaluated in int16) wrapped instead of saturating *)
+Theorem shift_left16_old_np_int16_refuted :
   exists a off, in_int 16 a = true /\ 0 <= off <= 30 /\
-    np_shift_left16_int16 a off = Some (-256) /\ SaturatingLeftShift16 a off = 32767 /\
-    GenFpMath.shift_left16 a off = Some 32767.
-Proof. exact shift_left16_np_int16_refuted_lemma. Qed.
-Print Assumptions shift_left16_np_int16_refuted.
+    np_shift_left16_int16_old a off = Some (-256) /\ SaturatingLeftShift16 a off = 32767 /\
+    np_shift_left16_int16 a off = Some 32767.
+Proof. exact shift_left16_old_np_int16_refuted_lemma. Qed.
+Print Assumptions shift_left16_np_int16_eq.
+Print Assumptions shift_left16_old_np_int16_refuted.
